@@ -21,13 +21,19 @@ structure Dec where
 def Dec.new (v : BitVec 64) (e : Int) : Dec := ⟨v.toInt, e⟩
 def Dec.newFromInt (v : BitVec 64) : Dec := ⟨v.toInt, 0⟩
 def Dec.sign (d : Dec) : Int := Int.sign d.coeff
-def Dec.exponent (d : Dec) : Int := d.exp
-def Dec.shift (d : Dec) (k : Int) : Dec := ⟨d.coeff, d.exp + k⟩
+abbrev Dec.exponent (d : Dec) : Int := d.exp
+abbrev Dec.shift (d : Dec) (k : Int) : Dec := ⟨d.coeff, d.exp + k⟩
 
 /-- `d.Cmp(d2) == 1`: both coefficients over the common exponent `min d.exp d2.exp` (an exact rescale) -/
 def Dec.greaterThan (a b : Dec) : Bool :=
   let k := min a.exp b.exp
   decide (b.coeff * 10 ^ (b.exp - k).toNat < a.coeff * 10 ^ (a.exp - k).toNat)
+
+/-- `d.Cmp(d2)`: -1, 0 or 1 (coefficients over the common exponent) -/
+def Dec.cmp (a b : Dec) : Int :=
+  let k := min a.exp b.exp
+  if a.coeff * 10 ^ (a.exp - k).toNat < b.coeff * 10 ^ (b.exp - k).toNat then -1
+  else if a.coeff * 10 ^ (a.exp - k).toNat = b.coeff * 10 ^ (b.exp - k).toNat then 0 else 1
 
 /-- `rescale(0).value`: exact for exp ≥ 0, truncated toward zero (`big.Int.Quo`) for exp < 0 -/
 def Dec.intValue (d : Dec) : Int :=
